@@ -20,7 +20,7 @@
 (* Scale(L, order), so X is carried times Scale, |X|^2 and X conj(Y) times *)
 (* Scale^2, and the quartic scatter times Scale^4.                         *)
 (***************************************************************************)
-EXTENDS Exact, Json
+EXTENDS KernelOps, Json
 
 CONSTANTS
     Ns,         \* set of record lengths
@@ -36,14 +36,6 @@ CONSTANTS
 
 VARIABLES cfg, pc, k, n, ch, v, s1, s2, gx, gy, slots, stats
 vars == <<cfg, pc, k, n, ch, v, s1, s2, gx, gy, slots, stats>>
-
-(***************************************************************************)
-(* Windows (integer valued, injected in the code through win=<callable>)   *)
-(***************************************************************************)
-AsymPattern == <<1, 3, 2, 5, 4, 2, 3, 1>>
-Win(id, L) == CASE id = "rect" -> [i \in 1..L |-> 1]
-                [] id = "ramp" -> [i \in 1..L |-> i]
-                [] id = "asym" -> [i \in 1..L |-> AsymPattern[i]]
 
 (***************************************************************************)
 (* Records.  The statistics are (sesqui)linear, quadratic and quartic      *)
@@ -75,105 +67,6 @@ CrossPairs(N) ==
                   <<[i \in 1..N |-> Dense3[i]], [i \in 1..N |-> Dense1[i]]>>,
                   <<[i \in 1..N |-> Dense2[i]], [i \in 1..N |-> Dense5[i]]>>,
                   <<[i \in 1..N |-> Dense1[i]], [i \in 1..N |-> Dense1[i]]>>}
-
-(***************************************************************************)
-(* Exact polynomial detrending of one segment.                             *)
-(* Discrete orthogonal (Gram) polynomials on 0..L-1, integer valued:       *)
-(*   g0 = 1,  g1 = 2n-(L-1),  g2 = 6n^2 - 6(L-1)n + (L-1)(L-2)             *)
-(* each divided by the gcd of its values.  Degree k only exists for k < L  *)
-(* (with L <= order the fit interpolates and the residual is zero, which   *)
-(* is also what the reduced QR of the code's Vandermonde matrix gives).    *)
-(***************************************************************************)
-GramRaw(kk, L) == CASE kk = 0 -> [i \in 1..L |-> 1]
-                    [] kk = 1 -> [i \in 1..L |-> 2 * (i - 1) - (L - 1)]
-                    [] kk = 2 -> [i \in 1..L |-> 6 * (i - 1) * (i - 1) - 6 * (L - 1) * (i - 1) + (L - 1) * (L - 2)]
-GramDef(kk, L) == LET g == GramRaw(kk, L)  d == GCDSeq(g) IN [i \in 1..L |-> g[i] \div d]
-Degs(order, L) == {kk \in 0..order : kk < L}           \* empty for order = -1
-RECURSIVE LCMSet(_)
-LCMSet(S) == IF S = {} THEN 1 ELSE LET e == CHOOSE e \in S : TRUE IN LCM(e, LCMSet(S \ {e}))
-(* constant-level tables: TLC evaluates them once *)
-MaxL == 8
-GramTable     == [L \in 1..MaxL |-> [kk \in {d \in 0..2 : d < L} |-> GramDef(kk, L)]]
-GramNormTable == [L \in 1..MaxL |-> [kk \in {d \in 0..2 : d < L} |-> Dot(GramTable[L][kk], GramTable[L][kk])]]
-ScaleTable    == [L \in 1..MaxL |-> [o \in -1..2 |-> LCMSet({GramNormTable[L][kk] : kk \in Degs(o, L)})]]
-Gram(kk, L)     == GramTable[L][kk]
-GramNorm(kk, L) == GramNormTable[L][kk]
-Scale(order, L) == ScaleTable[L][order]
-(* Scale * (seg - trend) as integers *)
-Residual(seg, order, L) ==
-    LET sc   == Scale(order, L)
-        degs == Degs(order, L)
-        coef == [kk \in degs |-> (sc \div GramNorm(kk, L)) * Dot(seg, Gram(kk, L))]
-        c0   == IF 0 \in degs THEN coef[0] ELSE 0
-        c1   == IF 1 \in degs THEN coef[1] ELSE 0
-        c2c  == IF 2 \in degs THEN coef[2] ELSE 0
-    IN [i \in 1..L |-> sc * seg[i]
-                        - (IF 0 \in degs THEN c0 * Gram(0, L)[i] ELSE 0)
-                        - (IF 1 \in degs THEN c1 * Gram(1, L)[i] ELSE 0)
-                        - (IF 2 \in degs THEN c2c * Gram(2, L)[i] ELSE 0)]
-(* windowed, detrended, scaled samples of segment starting at s (0-based) *)
-Samples(rec, s, L, order, win) ==
-    LET seg == SubSeq0(rec, s, L)  r == Residual(seg, order, L)
-    IN [i \in 1..L |-> win[i] * r[i]]
-
-(***************************************************************************)
-(* The definition the property states: X = sum_n v[n] exp(-i w n)          *)
-(***************************************************************************)
-RECURSIVE DefSum(_, _, _)
-DefSum(c2, vv, m) ==        \* sum_{j<m} vv[j+1] * zetabar^j
-    IF m = 0 THEN ZZero
-    ELSE ZAdd(DefSum(c2, vv, m - 1), ZScale(vv[m], ZPow(c2, ZetaBar(c2), m - 1)))
-RECURSIVE Horner(_, _, _)
-Horner(c2, vv, i) ==        \* sum_{j>=i} vv[j] zetabar^(j-i)
-    IF i > Len(vv) THEN ZZero
-    ELSE ZAdd(<<vv[i], 0>>, ZMul(c2, ZetaBar(c2), Horner(c2, vv, i + 1)))
-DefX(c2, vv) == Horner(c2, vv, 1)
-
-(* Goertzel as one operator (used by Grain = "segment" and by other modules) *)
-RECURSIVE GoertzelRegs(_, _, _)
-GoertzelRegs(c2, vv, m) ==  \* <<s1, s2>> after m samples
-    IF m = 0 THEN <<0, 0>>
-    ELSE LET p == GoertzelRegs(c2, vv, m - 1) IN <<vv[m] + c2 * p[1] - p[2], p[1]>>
-GoertzelOut(c2, regs) == <<regs[1] - c2 * regs[2], regs[2]>>      \* s1 - s2*zetabar
-
-(* per-segment products <<xx, yy, xy>> from two ring elements *)
-Products(c2, a, b) == [xx |-> ZNorm(c2, a), yy |-> ZNorm(c2, b), xy |-> ZMul(c2, a, ZConj(c2, b))]
-
-(***************************************************************************)
-(* Reference statistics straight from the definition (used as the expected *)
-(* value everywhere else: Analyzer, Result, Miso ...).                     *)
-(* Returned as integers: sums over segments (the mean divides by K, the    *)
-(* physical value by Scale^2, Scale^4 for the scatter).                    *)
-(***************************************************************************)
-SegProducts(c, j) ==
-    LET wv == Win(c.win, c.L)
-        vx == Samples(c.x, c.D[j], c.L, c.order, wv)
-        vy == IF c.mode = "auto" THEN vx ELSE Samples(c.y, c.D[j], c.L, c.order, wv)
-    IN Products(c.c2, DefX(c.c2, vx), DefX(c.c2, vy))
-RECURSIVE SumXX(_, _)
-SumXX(sl, m) == IF m = 0 THEN 0 ELSE sl[m].xx + SumXX(sl, m - 1)
-RECURSIVE SumYY(_, _)
-SumYY(sl, m) == IF m = 0 THEN 0 ELSE sl[m].yy + SumYY(sl, m - 1)
-RECURSIVE SumXY(_, _)
-SumXY(sl, m) == IF m = 0 THEN ZZero ELSE ZAdd(sl[m].xy, SumXY(sl, m - 1))
-RECURSIVE SumXYN(_, _, _)
-SumXYN(c2, sl, m) == IF m = 0 THEN 0 ELSE ZNorm(c2, sl[m].xy) + SumXYN(c2, sl, m - 1)
-MaxAbsXY(sl) == LET S == {Abs(sl[j].xy[1]) + Abs(sl[j].xy[2]) : j \in 1..Len(sl)} IN
-                CHOOSE m \in S : \A e \in S : e <= m
-(* K^2 * M2 = K * sum |Z_k|^2 - |sum Z_k|^2  (population scatter about the mean). *)
-(* Quartic in the data: only evaluated when it provably fits 32 bits.        *)
-M2Fits(sl) == LET b == MaxAbsXY(sl)  K == Len(sl) IN b < 5000 /\ 3 * b * b * K * K < 2000000000
-ReduceSlots(c2, sl) ==
-    LET K == Len(sl)
-        sxy == SumXY(sl, K)
-    IN [K    |-> K,
-        xx   |-> SumXX(sl, K),                   \* K * Scale^2 * MXX
-        yy   |-> SumYY(sl, K),
-        xy   |-> ZCanon(c2, sxy),                \* <<2*K*Scale^2*mu_r, K*Scale^2*mu_i/sin w>>
-        m2ok |-> IF K >= 2 THEN M2Fits(sl) ELSE TRUE,
-        m2   |-> IF K < 2 THEN 0                 \* K^2 * Scale^4 * M2
-                 ELSE IF M2Fits(sl) THEN K * SumXYN(c2, sl, K) - ZNorm(c2, sxy) ELSE -1]
-DefStats(c) == ReduceSlots(c.c2, [j \in 1..Len(c.D) |-> SegProducts(c, j)])
 
 (***************************************************************************)
 (* State machine                                                           *)
